@@ -220,16 +220,18 @@ open Verif.C08 (Val escape unescape splitRaw joinRaw normEmpty)
 
 /-- C08 `split_join` for a line with its terminator, re-derived here from the C08 lemmas so that
 this file does not depend on the whole of C08's Props (dates, integers). -/
+theorem joinRaw_no_nl (vs : List (Option (List Char))) : '\n' ∉ joinRaw vs := by
+  unfold joinRaw
+  rw [C08.tables_ok.2]
+  apply C08.not_mem_joinWith '@' '\n' _ (by decide)
+  intro p hp
+  simp only [List.mem_map] at hp
+  obtain ⟨v, _, rfl⟩ := hp
+  exact (C08.L.escape_safe _).1
+
 theorem split_join_nl (vs : List (Option (List Char))) (hne : vs ≠ []) :
     splitRaw (joinRaw vs ++ ['\n']) = .ok (vs.map normEmpty) := by
-  have hnl : '\n' ∉ joinRaw vs := by
-    unfold joinRaw
-    rw [C08.tables_ok.2]
-    apply C08.not_mem_joinWith '@' '\n' _ (by decide)
-    intro p hp
-    simp only [List.mem_map] at hp
-    obtain ⟨v, _, rfl⟩ := hp
-    exact (C08.L.escape_safe _).1
+  have hnl : '\n' ∉ joinRaw vs := joinRaw_no_nl vs
   unfold splitRaw
   rw [C08.rstripChar_snoc, C08.rstripChar_not_mem _ _ hnl]
   unfold joinRaw
@@ -252,5 +254,419 @@ theorem encodeLine_eq_joinRaw (fields : List Field) (vals : List Val) (l : Line)
       simp [joinRaw, cellsOf, List.map_map, Function.comp_def]
     · simp [hf, hl] at h
   · simp [hf] at h
+
+/-! ### text on disk ↔ lines -/
+
+theorem splitLinesAux_line (cur l rest : List Char) (h : '\n' ∉ l) :
+    splitLinesAux cur (l ++ '\n' :: rest) = (cur.reverse ++ l) :: splitLinesAux [] rest := by
+  induction l generalizing cur with
+  | nil => simp [splitLinesAux]
+  | cons c l ih =>
+    have hc : c ≠ '\n' := fun e => h (by simp [e])
+    have hl : '\n' ∉ l := fun e => h (by simp [e])
+    simp [splitLinesAux, hc, ih (c :: cur) hl]
+
+theorem splitLines_toText (ls : List Line) (h : ∀ l ∈ ls, '\n' ∉ l) : splitLines (toText ls) = ls := by
+  induction ls with
+  | nil => rfl
+  | cons l ls ih =>
+    have h1 : '\n' ∉ l := h l (by simp)
+    have h2 : ∀ l' ∈ ls, '\n' ∉ l' := fun l' hl => h l' (by simp [hl])
+    have : toText (l :: ls) = l ++ '\n' :: toText ls := by simp [toText]
+    unfold splitLines at ih ⊢
+    rw [this, splitLinesAux_line [] l _ h1, ih h2]
+    simp
+
+theorem toText_append (a b : List Line) : toText (a ++ b) = toText a ++ toText b := by
+  simp [toText]
+
+theorem encodeLine_no_nl (fields : List Field) (vals : List Val) (l : Line)
+    (h : encodeLine fields vals = .ok l) : '\n' ∉ l := by
+  obtain ⟨_, _, rfl⟩ := encodeLine_eq_joinRaw fields vals l h
+  exact joinRaw_no_nl _
+
+theorem stage_no_nl (fields : List Field) (recs : List (List Val)) (lines : List Line)
+    (h : stage fields recs = .ok lines) : ∀ l ∈ lines, '\n' ∉ l := by
+  induction recs generalizing lines with
+  | nil =>
+    have : lines = [] := by simpa [stage, pure, Except.pure] using h.symm
+    subst this; simp
+  | cons v vs ih =>
+    unfold stage at h
+    rw [List.mapM_cons] at h
+    cases h1 : encodeLine fields v with
+    | error e => simp [h1, bind, Except.bind] at h
+    | ok l =>
+      cases h2 : vs.mapM (encodeLine fields) with
+      | error e => simp [h1, h2, bind, Except.bind] at h
+      | ok ls =>
+        simp [h1, h2, bind, Except.bind, pure, Except.pure] at h
+        subst h
+        intro l' hl'
+        rcases List.mem_cons.mp hl' with e | e
+        · subst e; exact encodeLine_no_nl fields v _ h1
+        · exact ih ls h2 l' e
+
+end Verif.C09
+
+/-! ### the relations file: `_parse_schema (_format_schema s) = s` -/
+
+namespace Verif.C09
+open Verif.Py Verif.Tables
+
+/-- a token of a field line: non-empty, free of white space and `#` -/
+def TokOk (t : List Char) : Prop := t ≠ [] ∧ ∀ c ∈ t, isSpace c = false ∧ c ≠ '#'
+
+/-- the last character is neither white space nor a colon -/
+def LastOk (l : List Char) : Prop := ∃ pre z, l = pre ++ [z] ∧ isSpace z = false ∧ z ≠ ':'
+
+theorem takeWhile_dropWhile_stop {p : Char → Bool} (a : List Char) (x : Char) (r : List Char)
+    (ha : ∀ c ∈ a, p c = true) (hx : p x = false) :
+    (a ++ x :: r).takeWhile p = a ∧ (a ++ x :: r).dropWhile p = x :: r := by
+  induction a with
+  | nil => simp [List.takeWhile, List.dropWhile, hx]
+  | cons c a ih =>
+    have hc : p c = true := ha c (by simp)
+    have ih' := ih (fun d hd => ha d (by simp [hd]))
+    simp [List.takeWhile, List.dropWhile, hc, ih'.1, ih'.2]
+
+theorem takeWhile_dropWhile_all {p : Char → Bool} (a : List Char) (ha : ∀ c ∈ a, p c = true) :
+    a.takeWhile p = a ∧ a.dropWhile p = [] := by
+  induction a with
+  | nil => simp
+  | cons c a ih =>
+    have hc : p c = true := ha c (by simp)
+    have ih' := ih (fun d hd => ha d (by simp [hd]))
+    simp [List.takeWhile, List.dropWhile, hc, ih'.1, ih'.2]
+
+theorem isSpace_space : isSpace ' ' = true := by decide
+theorem isSpace_colon : isSpace ':' = false := by decide
+theorem isSpace_hash : isSpace '#' = false := by decide
+
+theorem strip_cons_space (l : List Char) : strip (' ' :: l) = strip l := by
+  simp [strip, List.dropWhile, isSpace_space]
+
+/-- a line that starts and ends with a non-space character is its own `strip()` -/
+theorem strip_eq_self (x : Char) (tl pre : List Char) (z : Char) (h : x :: tl = pre ++ [z])
+    (hx : isSpace x = false) (hz : isSpace z = false) : strip (x :: tl) = x :: tl := by
+  unfold strip
+  have h1 : (x :: tl).dropWhile isSpace = x :: tl := by simp [List.dropWhile, hx]
+  rw [h1, h, List.reverse_append]
+  simp [List.dropWhile, hz]
+
+theorem LastOk_append (a b : List Char) (h : LastOk b) : LastOk (a ++ b) := by
+  obtain ⟨pre, z, rfl, h1, h2⟩ := h
+  exact ⟨a ++ pre, z, by simp, h1, h2⟩
+
+theorem LastOk_joinWith (toks : List (List Char)) (hne : toks ≠ []) (h : ∀ t ∈ toks, LastOk t) :
+    LastOk (joinWith ' ' toks) := by
+  induction toks with
+  | nil => exact absurd rfl hne
+  | cons p ps ih =>
+    cases ps with
+    | nil => simpa [joinWith] using h p (by simp)
+    | cons q qs =>
+      have := ih (by simp) (fun t ht => h t (by simp [ht]))
+      simp only [joinWith]
+      exact LastOk_append p (' ' :: _) (LastOk_append [' '] _ this)
+
+theorem tableMatch_none_of_LastOk (L : List Char) (h : LastOk L) : tableMatch L = none := by
+  obtain ⟨pre, z, rfl, _, hz⟩ := h
+  cases pre with
+  | nil => simp [tableMatch]
+  | cons c tl =>
+    have : (tl ++ [z]).getLast? = some z := by simp
+    simp [tableMatch, this, hz]
+
+/-- `str.split()` over space-separated tokens followed by padding -/
+theorem splitWsAux_tok (cur t rest : List Char) (ht : ∀ c ∈ t, isSpace c = false) :
+    splitWsAux cur (t ++ rest) = splitWsAux (t.reverse ++ cur) rest := by
+  induction t generalizing cur with
+  | nil => simp
+  | cons c t ih =>
+    have hc : isSpace c = false := ht c (by simp)
+    have := ih (c :: cur) (fun d hd => ht d (by simp [hd]))
+    simp [splitWsAux, hc, this]
+
+theorem splitWsAux_pad (k : Nat) : splitWsAux [] (List.replicate k ' ') = [] := by
+  induction k with
+  | zero => simp [splitWsAux]
+  | succ k ih => simp [List.replicate_succ, splitWsAux, isSpace_space, ih]
+
+theorem splitWs_join (toks : List (List Char)) (k : Nat) (h : ∀ t ∈ toks, TokOk t) :
+    splitWs (joinWith ' ' toks ++ List.replicate k ' ') = toks := by
+  unfold splitWs
+  induction toks with
+  | nil => simp [joinWith, splitWsAux_pad]
+  | cons p ps ih =>
+    have hp := h p (by simp)
+    have hps : ∀ t ∈ ps, TokOk t := fun t ht => h t (by simp [ht])
+    have hsp : ∀ c ∈ p, isSpace c = false := fun c hc => (hp.2 c hc).1
+    have hpne : p.reverse ≠ [] := by simpa using hp.1
+    cases ps with
+    | nil =>
+      simp only [joinWith]
+      rw [splitWsAux_tok [] p _ hsp]
+      cases k with
+      | zero =>
+        cases hr : p.reverse with
+        | nil => exact absurd hr hpne
+        | cons x xs =>
+          have : p = (x :: xs).reverse := by rw [← hr]; simp
+          simp [splitWsAux, this]
+      | succ k =>
+        cases hr : p.reverse with
+        | nil => exact absurd hr hpne
+        | cons x xs =>
+          have : p = (x :: xs).reverse := by rw [← hr]; simp
+          simp [List.replicate_succ, splitWsAux, isSpace_space, splitWsAux_pad, this]
+    | cons q qs =>
+      simp only [joinWith, List.append_assoc, List.cons_append]
+      rw [splitWsAux_tok [] p _ hsp]
+      cases hr : p.reverse with
+      | nil => exact absurd hr hpne
+      | cons x xs =>
+        have hpe : p = (x :: xs).reverse := by rw [← hr]; simp
+        have ih' := ih hps
+        simp [splitWsAux, isSpace_space, ih', hpe]
+
+theorem joinWith_no_hash (toks : List (List Char)) (h : ∀ t ∈ toks, TokOk t) :
+    ∀ c ∈ joinWith ' ' toks, c ≠ '#' := by
+  induction toks with
+  | nil => simp [joinWith]
+  | cons p ps ih =>
+    cases ps with
+    | nil => intro c hc; exact ((h p (by simp)).2 c (by simpa [joinWith] using hc)).2
+    | cons q qs =>
+      intro c hc
+      simp only [joinWith, List.mem_append, List.mem_cons] at hc
+      rcases hc with hc | hc | hc
+      · exact ((h p (by simp)).2 c hc).2
+      · subst hc; decide
+      · exact ih (fun t ht => h t (by simp [ht])) c hc
+
+theorem joinWith_head (p : List Char) (ps : List (List Char)) (hp : TokOk p) :
+    ∃ x tl, joinWith ' ' (p :: ps) = x :: tl ∧ isSpace x = false ∧ x ≠ '#' := by
+  cases p with
+  | nil => exact absurd rfl hp.1
+  | cons x xs =>
+    have hx := hp.2 x (by simp)
+    cases ps with
+    | nil => exact ⟨x, xs, by simp [joinWith], hx.1, hx.2⟩
+    | cons q qs => exact ⟨x, xs ++ ' ' :: joinWith ' ' (q :: qs), by simp [joinWith], hx.1, hx.2⟩
+
+theorem parseFieldLine_fmt (name dt : List Char) (flags : List (List Char)) (T : List Char)
+    (cm : Option (List Char)) (hn : TokOk name) (htoks : ∀ t ∈ dt :: flags, TokOk t)
+    (hT : (T = [] ∧ cm = none) ∨
+          (∃ k c x tl, T = List.replicate k ' ' ++ '#' :: ' ' :: c ∧ cm = some c ∧ c = x :: tl ∧ isSpace x = false)) :
+    parseFieldLine (name ++ ' ' :: (joinWith ' ' (dt :: flags) ++ T))
+      = .ok { name := name, datatype := dt, flags := flags, comment := cm } := by
+  obtain ⟨x, jt, hJ, hx1, hx2⟩ := joinWith_head dt flags (htoks dt (by simp))
+  have hnohash := joinWith_no_hash (dt :: flags) htoks
+  have hsplit := fun k => splitWs_join (dt :: flags) k htoks
+  generalize joinWith ' ' (dt :: flags) = J at hJ hnohash hsplit ⊢
+  have hname : ∀ c ∈ name, (fun c => !isSpace c) c = true := fun c hc => by simp [(hn.2 c hc).1]
+  have h1 := takeWhile_dropWhile_stop (p := fun c => !isSpace c) name ' ' (J ++ T) hname (by simp [isSpace_space])
+  have h2 := takeWhile_dropWhile_stop (p := isSpace) [' '] x (jt ++ T) (by simp [isSpace_space]) hx1
+  have hJT : J ++ T = x :: (jt ++ T) := by rw [hJ]; rfl
+  have h2a : List.takeWhile isSpace (' ' :: (J ++ T)) = [' '] := by rw [hJT]; simpa using h2.1
+  have h2b : List.dropWhile isSpace (' ' :: (J ++ T)) = J ++ T := by rw [hJT]; simpa using h2.2
+  have hhead : (J ++ T).head?.any (fun c => c != '#') = true := by rw [hJT]; simp [hx2]
+  unfold parseFieldLine
+  simp only [h1.1, h1.2, h2a, h2b, hhead, if_true]
+  rcases hT with ⟨hT, hcm⟩ | ⟨k, c, y, tl, hT, hcm, hc, hy⟩
+  · subst hT; subst hcm
+    have h3 := takeWhile_dropWhile_all (p := fun c => c != '#') J (fun c hc => by simpa using hnohash c hc)
+    have hs := hsplit 0
+    simp only [List.replicate_zero, List.append_nil] at hs
+    simp only [List.append_nil, h3.1, h3.2, hs]
+    rfl
+  · subst hT; subst hcm
+    have hall : ∀ d ∈ J ++ List.replicate k ' ', (fun c => c != '#') d = true := by
+      intro d hd
+      rcases List.mem_append.mp hd with hd | hd
+      · simpa using hnohash d hd
+      · have : d = ' ' := (List.mem_replicate.mp hd).2
+        subst this; decide
+    have h3 := takeWhile_dropWhile_stop (p := fun c => c != '#') (J ++ List.replicate k ' ') '#' (' ' :: c)
+      hall (by simp)
+    have hre : J ++ (List.replicate k ' ' ++ '#' :: ' ' :: c) = (J ++ List.replicate k ' ') ++ '#' :: ' ' :: c := by simp
+    rw [hre]
+    simp only [h3.1, h3.2, hsplit k]
+    subst hc
+    simp [List.dropWhile, isSpace_hash, isSpace_space, hy]
+
+/-- a field the round trip covers: name, datatype and flags are non-empty tokens free of white
+space and `#`; datatype, flags and comment do not end in a colon (the line would look like a table
+line); a comment is non-empty and has no leading or trailing white space. -/
+structure FieldOk (f : SField) : Prop where
+  name : TokOk f.name
+  dt : TokOk f.datatype ∧ LastOk f.datatype
+  flags : ∀ t ∈ f.flags, TokOk t ∧ LastOk t
+  comment : ∀ c, f.comment = some c → (∃ x tl, c = x :: tl ∧ isSpace x = false) ∧ LastOk c
+
+/-- a relation name the round trip covers: starts with a word character, no white space
+(identifiers, one-character names included) -/
+def RelNameOk (n : Name) : Prop :=
+  ∃ c tl, n = c :: tl ∧ C08.isAsciiWord c = true ∧ ∀ x ∈ n, isSpace x = false
+
+theorem fmtSField_parse (f : SField) (h : FieldOk f) :
+    ∃ body, strip (fmtSField f) = body ∧ tableMatch body = none ∧ body.isEmpty = false ∧
+      parseFieldLine body = .ok f := by
+  have htoks : ∀ t ∈ f.datatype :: f.flags, TokOk t := by
+    intro t ht
+    rcases List.mem_cons.mp ht with e | e
+    · subst e; exact h.dt.1
+    · exact (h.flags t e).1
+  have hlast : ∀ t ∈ f.datatype :: f.flags, LastOk t := by
+    intro t ht
+    rcases List.mem_cons.mp ht with e | e
+    · subst e; exact h.dt.2
+    · exact (h.flags t e).2
+  have hJlast := LastOk_joinWith (f.datatype :: f.flags) (by simp) hlast
+  obtain ⟨n0, ntl, hname⟩ : ∃ n0 ntl, f.name = n0 :: ntl := by
+    cases hn : f.name with
+    | nil => exact absurd hn h.name.1
+    | cons a b => exact ⟨a, b, rfl⟩
+  have hn0 : isSpace n0 = false := (h.name.2 n0 (by simp [hname])).1
+  cases hc : f.comment with
+  | none =>
+    refine ⟨f.name ++ ' ' :: (joinWith ' ' (f.datatype :: f.flags) ++ []), ?_, ?_, ?_, ?_⟩
+    · have hfmt : fmtSField f = ' ' :: ' ' :: (f.name ++ ' ' :: (joinWith ' ' (f.datatype :: f.flags) ++ [])) := by
+        simp [fmtSField, hc, joinWith]
+      rw [hfmt, strip_cons_space, strip_cons_space]
+      have hL : LastOk (f.name ++ ' ' :: (joinWith ' ' (f.datatype :: f.flags) ++ [])) := by
+        simpa using LastOk_append (f.name ++ [' ']) _ hJlast
+      obtain ⟨pre, z, hpz, hz, _⟩ := hL
+      rw [hname] at hpz ⊢
+      exact strip_eq_self n0 _ pre z hpz hn0 hz
+    · apply tableMatch_none_of_LastOk
+      simpa using LastOk_append (f.name ++ [' ']) _ hJlast
+    · simp [hname]
+    · have := parseFieldLine_fmt f.name f.datatype f.flags [] none h.name htoks (Or.inl ⟨rfl, rfl⟩)
+      rw [this]
+      cases f; simp_all
+  | some c =>
+    obtain ⟨⟨x, tl, hcx, hx⟩, hcl⟩ := h.comment c hc
+    have hce : c.isEmpty = false := by simp [hcx]
+    let k := 40 - (' ' :: ' ' :: joinWith ' ' (f.name :: f.datatype :: f.flags)).length
+    let T := List.replicate k ' ' ++ '#' :: ' ' :: c
+    refine ⟨f.name ++ ' ' :: (joinWith ' ' (f.datatype :: f.flags) ++ T), ?_, ?_, ?_, ?_⟩
+    · have hfmt : fmtSField f = ' ' :: ' ' :: (f.name ++ ' ' :: (joinWith ' ' (f.datatype :: f.flags) ++ T)) := by
+        simp [fmtSField, hc, hce, joinWith, ljust, T, k]
+      rw [hfmt, strip_cons_space, strip_cons_space]
+      have hL : LastOk (f.name ++ ' ' :: (joinWith ' ' (f.datatype :: f.flags) ++ T)) := by
+        have := LastOk_append (f.name ++ ' ' :: (joinWith ' ' (f.datatype :: f.flags) ++ List.replicate k ' ' ++ ['#', ' '])) c hcl
+        simpa [T] using this
+      obtain ⟨pre, z, hpz, hz, _⟩ := hL
+      rw [hname] at hpz ⊢
+      exact strip_eq_self n0 _ pre z hpz hn0 hz
+    · apply tableMatch_none_of_LastOk
+      have := LastOk_append (f.name ++ ' ' :: (joinWith ' ' (f.datatype :: f.flags) ++ List.replicate k ' ' ++ ['#', ' '])) c hcl
+      simpa [T] using this
+    · simp [hname]
+    · have := parseFieldLine_fmt f.name f.datatype f.flags T (some c) h.name htoks
+        (Or.inr ⟨k, c, x, tl, rfl, rfl, hcx, hx⟩)
+      rw [this]
+      cases f; simp_all
+
+theorem parseLine_field (done : List (Name × List SField)) (t : Name) (fs : List SField) (f : SField)
+    (h : FieldOk f) :
+    parseLine { done := done, cur := some (t, fs) } (fmtSField f) = .ok { done := done, cur := some (t, fs ++ [f]) } := by
+  obtain ⟨body, h1, h2, h3, h4⟩ := fmtSField_parse f h
+  unfold parseLine
+  simp only [h1, h2, h3, h4]
+  rfl
+
+theorem parseLine_blank (st : PState) : parseLine st [] = .ok st := by
+  simp [parseLine, strip, tableMatch]
+
+theorem parseLine_table (st : PState) (n : Name) (hn : RelNameOk n) (hnew : n ∉ st.tables.map (·.1)) :
+    parseLine st (n ++ [':']) = .ok { done := st.tables, cur := some (n, []) } := by
+  obtain ⟨c, tl, rfl, hw, hsp⟩ := hn
+  have hc : isSpace c = false := hsp c (by simp)
+  have hstrip : strip ((c :: tl) ++ [':']) = c :: (tl ++ [':']) :=
+    strip_eq_self c (tl ++ [':']) (c :: tl) ':' (by simp) hc isSpace_colon
+  have hm : tableMatch (c :: (tl ++ [':'])) = some (c :: tl) := by
+    simp [tableMatch, hw]
+  unfold parseLine
+  simp only [hstrip, hm]
+  have : (st.tables.map (·.1)).contains (c :: tl) = false := by
+    simpa using hnew
+  simp [this]
+
+theorem parseLines_append (st st' : PState) (a b : List Line) (h : parseLines st a = .ok st') :
+    parseLines st (a ++ b) = parseLines st' b := by
+  induction a generalizing st with
+  | nil => simp [parseLines] at h; subst h; rfl
+  | cons l a ih =>
+    simp only [List.cons_append, parseLines] at h ⊢
+    cases hl : parseLine st l with
+    | error e => simp [hl] at h
+    | ok st1 => simp only [hl] at h ⊢; exact ih st1 h
+
+theorem parseLines_fields (done : List (Name × List SField)) (t : Name) (fs0 fs : List SField)
+    (h : ∀ f ∈ fs, FieldOk f) :
+    parseLines { done := done, cur := some (t, fs0) } (fs.map fmtSField)
+      = .ok { done := done, cur := some (t, fs0 ++ fs) } := by
+  induction fs generalizing fs0 with
+  | nil => simp [parseLines]
+  | cons f fs ih =>
+    simp only [List.map_cons, parseLines, parseLine_field done t fs0 f (h f (by simp))]
+    rw [ih (fs0 ++ [f]) (fun g hg => h g (by simp [hg]))]
+    simp
+
+/-- a schema the round trip covers -/
+structure TableOk (t : Name × List SField) : Prop where
+  name : RelNameOk t.1
+  fields : ∀ f ∈ t.2, FieldOk f
+
+theorem parseLines_table (st : PState) (t : Name × List SField) (h : TableOk t)
+    (hnew : t.1 ∉ st.tables.map (·.1)) :
+    parseLines st (fmtTable t) = .ok { done := st.tables, cur := some t } := by
+  unfold fmtTable
+  simp only [parseLines, parseLine_table st t.1 h.name hnew]
+  unfold joinLines
+  cases hf : t.2 with
+  | nil =>
+    simp [parseLines, parseLine_blank]
+    cases t; simp_all
+  | cons f fs =>
+    have := parseLines_fields st.tables t.1 [] (f :: fs) (by rw [← hf]; exact h.fields)
+    simp only [List.map_cons, List.isEmpty_cons] at this ⊢
+    simp only [Bool.false_eq_true, if_false, this]
+    cases t; simp_all
+
+theorem parseLines_schema (st : PState) (ss : SSchema) (h : ∀ t ∈ ss, TableOk t)
+    (hnd : (ss.map (·.1)).Nodup) (hdis : ∀ t ∈ ss, t.1 ∉ st.tables.map (·.1)) :
+    ∃ st', parseLines st (formatSchema ss) = .ok st' ∧ st'.tables = st.tables ++ ss := by
+  induction ss generalizing st with
+  | nil => exact ⟨st, by simp [formatSchema, parseLines, parseLine_blank], by simp⟩
+  | cons t ts ih =>
+    have ht := h t (by simp)
+    have hnew := hdis t (by simp)
+    have h1 := parseLines_table st t ht hnew
+    cases ts with
+    | nil =>
+      exact ⟨_, by simpa [formatSchema] using h1, by simp [PState.tables]⟩
+    | cons t2 ts =>
+      have hnd' : ((t2 :: ts).map (·.1)).Nodup := (List.nodup_cons.mp (by simpa using hnd)).2
+      have hnotin : t.1 ∉ (t2 :: ts).map (·.1) := (List.nodup_cons.mp (by simpa using hnd)).1
+      let st1 : PState := { done := st.tables, cur := some t }
+      have hdis' : ∀ u ∈ t2 :: ts, u.1 ∉ st1.tables.map (·.1) := by
+        intro u hu
+        have hu1 := hdis u (by simp [List.mem_cons.mp hu])
+        simp only [PState.tables, Option.toList, List.map_append, List.mem_append, List.map_cons,
+          List.map_nil, List.mem_singleton, not_or, st1]
+        refine ⟨by simpa [PState.tables] using hu1, ?_⟩
+        intro e
+        exact hnotin (e ▸ List.mem_map_of_mem hu)
+      obtain ⟨st', h2, h3⟩ := ih st1 (fun u hu => h u (by simp [List.mem_cons.mp hu])) hnd' hdis'
+      refine ⟨st', ?_, ?_⟩
+      · show parseLines st (fmtTable t ++ [] :: formatSchema (t2 :: ts)) = _
+        rw [parseLines_append st st1 _ _ h1]
+        simp only [parseLines, parseLine_blank]
+        exact h2
+      · rw [h3]; simp [PState.tables, st1]
 
 end Verif.C09
